@@ -27,7 +27,8 @@ pub struct Case {
     /// 0 absent, 1 first, 2 first+second
     pub eval: u8,
     /// 0 absent, 1 empty map, 2 entry for the used id, 3 entry for the other listed id,
-    /// 4 entry for an unlisted id, 5 empty key, 6 key that is not base64url
+    /// 4 entry for an unlisted id, 5 empty key, 6 key that is not base64url, 7 / 8 / 9 key that is a
+    /// strict prefix of a listed id / that id plus a byte / that id with its last byte changed
     pub ebc: u8,
     /// 0 absent, 1 empty, 2 [A, B]
     pub allow: u8,
@@ -78,7 +79,7 @@ pub fn cases(tier: Tier) -> Vec<Case> {
             for uv_required in [false, true] {
                 for verified in [false, true] {
                     for eval in 0..3u8 {
-                        for ebc in 0..7u8 {
+                        for ebc in 0..10u8 {
                             for variant in 0..3u8 {
                                 for &len in &lens {
                                     v.push(Case { hmac, hmac_mc, register: true, ctap: false, uv_required, verified, secrets: 0, eval, ebc, allow: 0, variant, len, len2: None, dict: None, secret_len: None, cred_props: 0 });
@@ -184,6 +185,15 @@ fn build_inputs(c: &Case) -> Inputs {
         3 => Some([(b64::url_nopad(&cred_id(B)), to_vals(&entry))].into_iter().collect()),
         4 => Some([(b64::url_nopad(&cred_id(7)), to_vals(&entry))].into_iter().collect()),
         5 => Some([(String::new(), to_vals(&entry))].into_iter().collect()),
+        // keys in a value relation to a listed id: a strict prefix of A's id, A's id plus one byte,
+        // A's id with its last byte changed - each names no listed credential
+        7 => Some([(b64::url_nopad(&cred_id(A)[..8]), to_vals(&entry))].into_iter().collect()),
+        8 => Some([(b64::url_nopad(&[cred_id(A), vec![0]].concat()), to_vals(&entry))].into_iter().collect()),
+        9 => Some([(b64::url_nopad(&{
+            let mut i = cred_id(A);
+            *i.last_mut().unwrap() ^= 1;
+            i
+        }), to_vals(&entry))].into_iter().collect()),
         _ => Some([("*not base64url*".to_string(), to_vals(&entry))].into_iter().collect()),
     };
     let main = PrfIn { eval: eval.as_ref().map(to_vals), eval_by_credential: ebc };
@@ -217,7 +227,7 @@ fn malformed(c: &Case) -> Option<&'static str> {
         return Some("per-credential inputs without an allow list");
     }
     match c.ebc {
-        4 => return Some("unlisted credential key"),
+        4 | 7 | 8 | 9 => return Some("unlisted credential key"),
         5 => return Some("empty credential key"),
         6 => return Some("undecodable credential key"),
         _ => {}
@@ -262,7 +272,7 @@ struct Out {
 fn run_case(c: &Case, store: &Shared<RefStore>, log: &Log) -> Result<Out, String> {
     let inp = build_inputs(c);
     let uv = ScriptedUv { verification_cap: Some(true), presence_cap: true, outcome: UvOutcome::Ok { presence: true, verification: c.verified }, yields: 0, log: log.clone() };
-    let cfg = AuthCfg { counter: true, id_len: None, hmac: c.hmac, hmac_mc: c.hmac_mc };
+    let cfg = AuthCfg { counter: true, id_len: None, hmac: c.hmac, hmac_mc: c.hmac_mc, order: 0 };
     let logged = Logging { inner: store.clone(), log: log.clone() };
     let allow = match c.allow {
         0 => None,
